@@ -80,17 +80,20 @@ def sensitivity(only=None):
     items = []
     for pth in sorted(glob.glob(os.path.join(HERE, "mutants", "*.patch"))):
         owner = os.path.basename(pth).split("-")[0].upper()
-        items.append((pth, [owner]))
+        items.append((pth, [owner], "quick"))
     for meta in sorted(glob.glob(os.path.join(HERE, "seeded", "*", "meta.json"))):
         with open(meta) as f:
             m = json.load(f)
-        if m.get("caught_by"):
-            items.append((os.path.join(os.path.dirname(meta), "patch.diff"), m["caught_by"][:1]))
+        if m.get("caught_by") and m.get("confirmed"):
+            owner = m["caught_by"][0]
+            hist = (m.get("checks_history") or {}).get(owner) or [{}]
+            tier = next((h.get("tier", "quick") for h in reversed(hist) if h.get("caught")), "quick")
+            items.append((os.path.join(os.path.dirname(meta), "patch.diff"), [owner], tier))
     if only:
         items = [it for it in items if any(o in it[0] for o in only)]
     scratch_root = os.environ.get("VERIF_SCRATCH", "/var/tmp")
     failures = 0
-    for pth, owners in items:
+    for pth, owners, tier in items:
         tmp = tempfile.mkdtemp(prefix="nessai-mutant-", dir=scratch_root)
         try:
             subprocess.run(["git", "-C", "/repo", "worktree", "add", "--detach", "-q", os.path.join(tmp, "repo"), "HEAD"],
@@ -105,10 +108,11 @@ def sensitivity(only=None):
                 envv = dict(os.environ, VERIF_REPO=repo, VERIF_EVIDENCE_DIR=os.path.join(tmp, "ev"),
                             VERIF_REPLAY_DIR=os.path.join(tmp, "rp"))
                 envv.pop("NESSAI_SIM_BOOT", None)
-                p = subprocess.run([os.path.join(HERE, "bin", "check"), owner, "--tier", "quick"],
+                p = subprocess.run([os.path.join(HERE, "bin", "check"), owner, "--tier", tier],
                                    capture_output=True, text=True, env=envv, timeout=3600)
                 caught = p.returncode == 1 and "VIOLATION property=" in p.stdout
-                print(f"SENSITIVITY {pth.replace(HERE + '/', '')} -> {owner}: {'caught' if caught else 'MISSED'} (exit {p.returncode})")
+                print(f"SENSITIVITY {pth.replace(HERE + '/', '')} -> {owner} ({tier}): {'caught' if caught else 'MISSED'} "
+                      f"(exit {p.returncode})", flush=True)
                 if not caught:
                     failures += 1
         finally:
